@@ -1263,10 +1263,6 @@ func prepareStmt(cat *catalog, tx *txn, st stmt, paramOIDs []uint32) (*prepared,
 			return nil, err
 		}
 		p.cols = cols
-	default:
-		if n := maxParam(st); n > 0 {
-			return nil, unsupported("parameters in utility statement")
-		}
 	}
 	for i, t := range a.params {
 		if t == tUnknown {
@@ -1276,8 +1272,6 @@ func prepareStmt(cat *catalog, tx *txn, st stmt, paramOIDs []uint32) (*prepared,
 	p.params = a.params
 	return p, nil
 }
-
-func maxParam(st stmt) int { return 0 }
 
 // rowIndependent reports whether e can be evaluated without the current row
 // of its own query level (it may reference parameters and outer levels).
